@@ -1,6 +1,7 @@
 import Driver.Util
 import Driver.Session
 import AsyncFix.Model.LinkInv
+import AsyncFix.Model.LinkX
 import Std.Data.HashSet
 
 /-!
@@ -12,6 +13,8 @@ Events (separated by a `/` token), `<side>` = `I` | `A`, `<now>` = clock in ms, 
   `d <side> <now> <stamp>`         the next frame in flight TOWARDS that side arrives
   `b <now> <stamp>`                connection break
   `r <now> <stamp>`                reconnect + initiator's Logon
+  `o <side> <now> <stamp> <text>`  graceful logout by that side's application (extended alphabet, `Model/LinkX.lean`)
+  `x <side>`                       restart of that side's endpoint over the same journal (no-op while it has a transport)
 
 * `sched.link-run <k> <hb> <events>` — run from `Link.init hb`.  Reply: one segment per event, joined by ` | `:
     `<effects> # <scalars I> # <scalars A> # <len toA> <len toI> <quiescent 0|1>`
@@ -42,12 +45,18 @@ def showSide : Side → String
   | .I => "I"
   | .A => "A"
 
-def parseEv : List String → Option Ev
+def parseBaseEv : List String → Option Ev
   | ["s", s, now, stamp, m] => do pure (.appSend (← parseSide s) (← parseEnv now stamp) (← parseMsg m))
   | ["d", s, now, stamp] => do pure (.deliverNext (← parseSide s) (← parseEnv now stamp))
   | ["b", now, stamp] => do pure (.breakConn (← parseEnv now stamp))
   | ["r", now, stamp] => do pure (.reconnect (← parseEnv now stamp))
   | _ => none
+
+/-- extended alphabet: `o <side> <now> <stamp> <text>` graceful logout, `x <side>` restart over the same journal -/
+def parseEv : List String → Option EvX
+  | ["o", s, now, stamp, text] => do pure (.logout (← parseSide s) (← parseEnv now stamp) (← tokStr text))
+  | ["x", s] => do pure (.restart (← parseSide s))
+  | ts => (parseBaseEv ts).map .base
 
 /-- split a token list at the `/` tokens -/
 def splitEvents (ts : List String) : List (List String) :=
@@ -56,7 +65,7 @@ def splitEvents (ts : List String) : List (List String) :=
     | t :: r, cur, acc => if t == "/" then go r [] (cur.reverse :: acc) else go r (t :: cur) acc
   if ts.isEmpty then [] else go ts [] []
 
-def parseEvents (ts : List String) : Option (List Ev) := (splitEvents ts).mapM parseEv
+def parseEvents (ts : List String) : Option (List EvX) := (splitEvents ts).mapM parseEv
 
 def b01 (b : Bool) : String := if b then "1" else "0"
 
@@ -78,10 +87,10 @@ def showLite (l : Link) : String :=
 def showFull (l : Link) : String :=
   "FULL " ++ showConn l.i ++ " ## " ++ showConn l.a ++ " ## " ++ showMsgs l.toA ++ " ## " ++ showMsgs l.toI
 
-def traceRun (k : Nat) : Link → Nat → List Ev → List String → List String
+def traceRun (k : Nat) : Link → Nat → List EvX → List String → List String
   | _, _, [], acc => acc.reverse
   | l, idx, ev :: rest, acc =>
-    let l1 := step l ev
+    let l1 := stepX l ev
     let full := rest.isEmpty || (k != 0 && (idx + 1) % k == 0)
     let seg := if full then showLite l1 ++ " # " ++ showFull l1 else showLite l1
     traceRun k l1 (idx + 1) rest (seg :: acc)
@@ -159,7 +168,7 @@ def handle (st : St) (cmd : String) (args : List String) : St × String :=
     | _, _, _ => (st, "bad-op")
   | "link-final", hb :: evT =>
     match tokInt hb, parseEvents evT with
-    | some hb, some evs => (st, showFinal (run (Link.init hb) evs))
+    | some hb, some evs => (st, showFinal (runX (Link.init hb) evs))
     | _, _ => (st, "bad-op")
   | "link-explore", [d, hb] =>
     match d.toNat?, tokInt hb with
